@@ -6,6 +6,13 @@ import numpy
 from mc import duck as D
 from mc.explore import V, HarnessError
 
+def seam_guard(ex):
+    """an AttributeError raised BY THE DUCK (an attribute the duck-typed calculator does not carry) is a drift of the
+    harness seam, not a property violation (DESIGN §12)"""
+    if isinstance(ex, AttributeError) and "SimpleNamespace" in str(ex):
+        raise HarnessError(f"duck-typed seam no longer matches the code: {ex}")
+
+
 ID = "C01"
 MOD = "mc.props.c01"
 
@@ -89,6 +96,7 @@ def run_case(case):
             th = numpy.array(obj.thermal_contribution, float)
             val = numpy.array(obj.value_isothermal, float)
         except Exception as ex:
+            seam_guard(ex)
             viol.append(V(f"c01:raises:{tag}:{type(ex).__name__}", f"component ({i + 1},{j + 1}) raised {ex!r}"))
             continue
         if zp.shape != (len(v),) or th.shape != (len(t), len(v)) or val.shape != (len(t), len(v)):
@@ -142,6 +150,68 @@ def run_case(case):
     return out
 
 
+READS = ["zero_point_contribution", "thermal_contribution", "value_isothermal", "value_adiabatic", "isothermal_to_adiabatic"]
+HIST_SPECS = [
+    dict(shape=[2, 2], weights="increasing", wset="mid", gset="distinct", bset="distinct", tgrid="std", vgrid="three", pkind="positive", gamma_fill="zeros", cv="field"),
+    dict(shape=[3, 1], weights="equal", wset="edge", gset="distinct", bset="zero", tgrid="mix", vgrid="five", pkind="signed", gamma_fill="garbage", cv="const"),
+    dict(shape=[2, 2], weights="scaled", wset="low", gset="same", bset="distinct", tgrid="hot", vgrid="three", pkind="zero", gamma_fill="zeros", cv="field"),
+]
+
+
+def run_reads(case):
+    """mode B: one contribution object, a sequence of property reads; every read must return what a fresh object returns
+    for the same duck (bit for bit), and the final state must still satisfy the C01 identity (checked through run_case's
+    oracle on fresh objects elsewhere)."""
+    from cij.core.phonon_contribution.nonshear import (
+        LongitudinalElasticModulusPhononContribution as Long,
+        OffDiagonalElasticModulusPhononContribution as Off,
+    )
+    spec = spec_of(HIST_SPECS[case["spec"]])
+    duck, laws, w, t, v = D.build(spec)
+    e = D.strain_field("const", v)
+    viol = []
+    for cls, (i, j) in ((Long, (0, 0)), (Off, (0, 2))):
+        fresh = {}
+        try:
+            for name in READS:
+                fresh[name] = numpy.array(getattr(cls(duck, (e[:, i], e[:, j])), name), float)
+            obj = cls(duck, (e[:, i], e[:, j]))
+        except Exception as ex:
+            seam_guard(ex)
+            viol.append(V(f"c01:process-history:raises:{type(ex).__name__}", f"{cls.__name__} on a freshly built calculator-like object (this worker has evaluated and released others before): {ex!r}"))
+            break
+        for n, name in enumerate(case["ops"]):
+            try:
+                got = numpy.array(getattr(obj, name), float)
+            except Exception as ex:
+                seam_guard(ex)
+                viol.append(V(f"c01:read-order-dependence:raises:{type(ex).__name__}", f"{cls.__name__}: after reads {case['ops'][:n]}, reading {name} raised {ex!r}"))
+                break
+            if got.shape != fresh[name].shape or not numpy.array_equal(got, fresh[name], equal_nan=True):
+                viol.append(V(f"c01:read-order-dependence:{cls.__name__[:4].lower()}:{name}",
+                              f"{cls.__name__}: after reads {case['ops'][:n]}, {name} differs from a fresh object's value by {float(numpy.nanmax(numpy.abs(got - fresh[name]))) if got.shape == fresh[name].shape else 'shape'}"))
+                break
+    return {"viol": viol, "nontrivial": len(case["ops"]) > 1, "outcome": "reads-ok" if not viol else viol[0]["sig"]}
+
+
+def run_sequence(case):
+    """process history: several calculator-like objects built, used and released one after the other in one process (the
+    next one is allocated right after the previous was dropped, so CPython tends to reuse its address); each must give the
+    values of the free-energy reference for ITS OWN spectrum and grids."""
+    import gc
+    out = {"viol": [], "nontrivial": True, "outcome": "sequence-ok"}
+    for n, idx in enumerate(case["order"]):
+        c = dict(HIST_SPECS[idx], strain="const")
+        r = run_case(c)
+        gc.collect()
+        if r["viol"]:
+            v0 = r["viol"][0]
+            out["viol"].append(V("c01:process-history:" + v0["sig"].split(":", 1)[1], f"object #{n} of sequence {case['order']} (after {case['order'][:n]} were used and released): {v0['msg']}"))
+            out["outcome"] = out["viol"][0]["sig"]
+            break
+    return out
+
+
 def canon(case):
     c = dict(case)
     nq, na = c["shape"]
@@ -156,7 +226,9 @@ def explore(ctx):
     ctx.rule = ("mode A: BFS over the deviation lattice of the listed alphabets; each configuration evaluates the 3 "
                 "longitudinal and 6 ordered off-diagonal components (zero-point, thermal, isothermal) on a duck-typed "
                 "calculator and compares with mpmath 40-digit derivatives of F_ph itself; non-trivial = zero-point and "
-                "thermal A both non-zero somewhere (a spectrum with at least one non-acoustic mode and T>0 present or T=0 row checked)")
+                "thermal A both non-zero somewhere (a spectrum with at least one non-acoustic mode and T>0 present or T=0 row checked); "
+                "mode B: all ordered sequences of <=3 (all 120 orders of 5 in thorough) property reads on one contribution object vs fresh "
+                "objects; all ordered sequences of 2-3 calculator-like objects used and released one after the other in one process")
     ctx.assumptions = ["CODATA constants from scipy.constants", "mpmath numerical differentiation at 40 digits",
                        "analytic mode law ln w = ln w0 - g0 x - b x^2/2 covers 'arbitrary' gamma and V dgamma/dV pointwise"]
     dims = OrderedDict((k, list(v)) for k, v in DIMS.items())
@@ -169,6 +241,13 @@ def explore(ctx):
         cases, results = ctx.run_lattice(MOD, "run_case", small, None, part="small-shapes-full-product", canon=canon)
         c2, r2 = ctx.run_lattice(MOD, "run_case", dims, 3, part="all-shapes<=3", canon=canon)
         results = results + r2
+    import itertools
+    seqs = [list(p) for L in (1, 2, 3) for p in itertools.permutations(READS, L)] + ([list(p) for p in itertools.permutations(READS, 5)] if not ctx.quick else
+                                                                                      [READS[::-1], READS[2:] + READS[:2], ["value_adiabatic", "thermal_contribution", "zero_point_contribution", "value_isothermal"]])
+    ctx.run(MOD, "run_reads", [{"spec": k, "ops": sq} for k in range(len(HIST_SPECS)) for sq in seqs], part="read-histories",
+            transitions=sum(len(sq) for sq in seqs) * len(HIST_SPECS))
+    orders = [list(p) for L in (2, 3) for p in itertools.permutations(range(len(HIST_SPECS)), L)] + [[0, 0], [1, 1, 1], [0, 1, 0], [2, 0, 2]]
+    ctx.run(MOD, "run_sequence", [{"order": o} for o in orders], part="object-sequences", chunksize=1, transitions=sum(len(o) for o in orders))
     ratios = [r["zp_ratio"] for r in results if r.get("zp_ratio")]
     if ratios:
         lo = min(r[0] for r in ratios)
